@@ -121,6 +121,22 @@ def engine_work(run, eng):
         run.distinct.add(f"{eng}|random|len{ln}")
     run.count(f"lengths:{eng}", 201)
     if dec is None:
+        # libpass' engine only encodes: its transposed encoder over the hash tables and over the smallest / one-shot offset lists
+        import passlib.handlers.md5_crypt as m5
+        import passlib.handlers.sha2_crypt as s2
+        for tname, offs, size in (("md5_crypt", list(m5._transpose_map), 16), ("sha256_crypt", list(s2._256_transpose_map), 32), ("sha512_crypt", list(s2._512_transpose_map), 64),
+                                  ("empty", [], 4), ("single", [2], 4), ("pair", [3, 0], 4), ("triple", [1, 1, 0], 4)):
+            for variant in ("list", "tuple"):
+                data = H.pw_bytes(rng, size, "binary")
+                want = ref_encode(bytes(data[o] for o in offs), alphabet, big)
+                try:
+                    got = e.encode_transposed_bytes(data, offs if variant == "list" else tuple(offs))
+                except Exception as ex:
+                    viol(run, eng, f"transposed|{tname}|{type(ex).__name__}", f"{eng}.encode_transposed_bytes with the {tname} offsets raised {type(ex).__name__}: {ex}", dict(table=tname))
+                    continue
+                run.count("transposed_small")
+                if got != want.encode():
+                    viol(run, eng, f"transposed|{tname}", f"{eng}.encode_transposed_bytes(data, {tname} offsets) = {got!r}, reference {want!r}", dict(table=tname))
         return
     # malformed input
     for bad, why in ((b"a", "length 1 mod 4"), (b"abcde", "length 1 mod 4"), (b"ab!d", "char outside alphabet"), (b"ab\xffd", "non-ascii byte"),
@@ -347,6 +363,7 @@ def body(run):
         run.require(f"lengths:{n}", 201)
     run.require("repair_checks", 128)
     run.require("b32", 1)
+    run.require("transposed_small", 20)
     run.exhaustive = True
     run.extra["exhaustive_subspaces"] = ["every 1-byte and 2-byte string for every engine (65 792 each)", "all 6- and 12-bit integers for every engine",
                                          "every final character for padding-bit repair (tails 2 and 3)",
